@@ -20,6 +20,13 @@ for fn in sorted(os.listdir(kd)):
 json.dump({"comment": "Merged index of known_findings.d/*.json (the committed sources; never written at run time by a check). status=open: genuine defect recorded, not repaired — the check prints KNOWN-FINDING for exactly this class and exits 0. status=fixed: repaired by the named fix: commit in /repo; suppresses nothing.",
            "findings": kf}, open(os.path.join(V, "known_findings.json"), "w"), indent=1)
 TODO = {}
+import subprocess
+try:
+    out = subprocess.run(["git", "-C", "/repo", "log", "--format=%h %s", "--grep=^verif hooks:"], capture_output=True, text=True).stdout
+    HOOK_COMMITS = [l.strip() for l in out.splitlines() if l.strip()][::-1]
+    json.dump({"source_commits": HOOK_COMMITS}, open(os.path.join(V, "hooks.json"), "w"), indent=1)
+except Exception:
+    HOOK_COMMITS = json.load(open(os.path.join(V, "hooks.json")))["source_commits"] if os.path.exists(os.path.join(V, "hooks.json")) else []
 ids = ["C%02d" % i for i in range(1, 21)]
 checks = []
 for i in ids:
@@ -44,7 +51,7 @@ m = {
   "guard": "verif",
   "enable": "go build -tags verif (the harness links /repo through a replace directive)",
   "baseline_off_cmd": "cd /repo && go build ./... && go test -vet=off -count=1 ./...",
-  "source_commits": json.load(open(os.path.join(V, "hooks.json")))["source_commits"] if os.path.exists(os.path.join(V, "hooks.json")) else [],
+  "source_commits": HOOK_COMMITS,
   "add_only": True,
  },
  "engines": [{"name": "lean-proof+correspondence", "path": "/verif/check", "serves_properties": [c["property_id"] for c in checks],
